@@ -236,6 +236,9 @@ type Engine struct {
 
 	shutdown bool
 
+	// wgListener is used to wait for the accept loops to exit.
+	wgListener sync.WaitGroup
+
 	listenerMux *lmux.ListenerMux
 	listeners   []net.Listener
 
@@ -329,14 +332,22 @@ type Conn struct {
 //go:norace
 func (e *Engine) listen(ln net.Listener, tlsConfig *tls.Config, addConn func(*Conn, *tls.Config, func()), decrease func()) {
 	e.Add(1)
+	e.wgListener.Add(1)
 	go func() {
 		defer func() {
 			// ln.Close()
+			e.wgListener.Done()
 			e.Done()
 		}()
 		for !e.shutdown {
 			conn, err := ln.Accept()
-			if err == nil && !e.shutdown {
+			if err == nil {
+				if e.shutdown {
+					// accepted while the engine is being stopped.
+					_ = conn.Close()
+					decrease()
+					return
+				}
 				addConn(&Conn{Conn: conn}, tlsConfig, decrease)
 			} else {
 				var ne net.Error
@@ -533,6 +544,12 @@ func (e *Engine) Stop() {
 	}
 
 	e.stopListeners()
+	// A connection that has just been accepted is still on its way into the
+	// engine, wait for the accept loops to exit before closing the conns.
+	e.wgListener.Wait()
+	// The conns that are served by their own goroutines are unknown to the
+	// pollers, close them here.
+	e.closeAllConns()
 	e.Engine.Stop()
 }
 
@@ -542,6 +559,7 @@ func (e *Engine) Stop() {
 func (e *Engine) Shutdown(ctx context.Context) error {
 	e.shutdown = true
 	e.stopListeners()
+	e.wgListener.Wait()
 
 	if e.Cancel != nil {
 		e.Cancel()
